@@ -12,3 +12,6 @@ Definition T : tables := {|
   aes_prefix := [6;241;7]%N;
   id_copy := [0]%N; id_lzma := [3;1;1]%N; id_lzma2 := [33]%N; id_bcj := [3;3;1;3]%N
 |}.
+
+Definition prop_ids : list N := [0%N; 1%N; 2%N; 3%N; 4%N; 5%N; 6%N; 7%N; 8%N; 9%N; 10%N; 11%N; 12%N; 13%N; 14%N; 15%N; 17%N; 21%N; 23%N].
+Definition magic7 : bytes := [55;122;188;175;39;28]%N.
